@@ -1,5 +1,8 @@
 import BV.Lemmas.MultiFavorKinds
+import BV.Model.StreamJob
 import BV.Drive.Hasher
+import BV.Drive.Multi
+import BV.Drive.Stream
 /-!
 Line protocol of engine `favor` (property C06, part 3: the shared pre-built match index):
 
@@ -15,6 +18,14 @@ answer: `<stored_end> <shared> <own> <job-on> <job-off>`:
   own     = `selfbuilt M input (bnd t n j) lgwin quality overlap`,
   job-on  = `jobIndex … (some shared)`, job-off = `jobIndex … none`,
 each index as `<num_digest>:<buckets_digest>:<nonzero_num>:<nonzero_buckets>` or `panic`.
+
+  `favor sjob <i> <t> <n> <quality> <lgwin> <catable> <appendable> <magic> <piece> <answers>`
+
+  a job of `CompressMulti` on a FRESH encoder over the stream machine (`BV.StreamJob.streamJob`):
+  params as handed to `compress_part` (before its own catable/appendable/magic changes), the job's
+  piece (hex), and the recorded answers of the payload-encoder invocations of its FINISH call
+  (`<result>.<emit>.<nbits>.<hexbits|->` joined by `/`, `-` = none; hexbits `-` = bits not recoverable
+  from the delivered bytes: `nbits` zeros).  answer: `ok:<hex>` | `err` | `panic` | `spin`.
 -/
 namespace BV.Drive.Favor
 open BV.Drive BV.Hasher BV.Multi BV.Lemmas.Multi BV.Drive.Hasher
@@ -39,7 +50,35 @@ def answer {H : Type} (M : HasherModel H) (dig : H → String) (input : List Nat
   let jobOff := jobIndex M input size lgwin q overlap none
   s!"{p.2} {dig p.1} {dig own} {dig jobOn} {dig jobOff}"
 
+def parseAns (t : String) : Option BV.Stream.Ans :=
+  match t.splitOn "." with
+  | [r, e, n, h] =>
+    let nb := natArg n
+    let bits := if h = "-" then List.replicate nb false else BV.Drive.Stream.bitsOfBytes (hexToBytes h) nb
+    if bits.length ≠ nb then none else some { result := r == "1", emit := e == "1", bits := bits }
+  | _ => none
+
+def parseAnswers (t : String) : Option (List BV.Stream.Ans) :=
+  if t = "-" then some [] else
+  (t.splitOn "/").foldr (fun a acc => match acc, parseAns a with
+    | some l, some x => some (x :: l)
+    | _, _ => none) (some [])
+
+def sjob : List String → String
+  | [i, t, n, q, lgwin, cat, app, magic, piece, ans] =>
+    match parseAnswers ans with
+    | none => "bad-op"
+    | some answers =>
+      let piece := hexToBytes piece
+      let p : BV.Stream.Params :=
+        { quality := (natArg q : Int), lgwin := (natArg lgwin : Int), catable := cat == "1", appendable := app == "1", magic := magic == "1" }
+      let o : BV.Stream.Oracle := fun k _ => answers.getD k {}
+      let fuel := 8 * piece.length + 4 * maxCompressedSize piece.length + 4096
+      BV.Drive.Multi.jobTok (BV.StreamJob.streamJob o fuel p (natArg i) (natArg t) (natArg n) piece)
+  | _ => "bad-op"
+
 def handle : List String → String
+  | "sjob" :: rest => sjob rest
   | [kind, lgwin, q, t, j, data] =>
     let input := hexToBytes data
     let lgwin := natArg lgwin
